@@ -297,6 +297,10 @@ def find_blocked_reactions(
     zero_cutoff = normalize_cutoff(model, zero_cutoff)
 
     with model:
+        # Whether a reaction can carry flux does not depend on the objective; with
+        # the model's objective FVA would only search the half space
+        # `objective >= 0` (`<= 0` when minimising).
+        model.objective = model.problem.Objective(Zero)
         if open_exchanges:
             for reaction in model.exchanges:
                 reaction.bounds = (
